@@ -41,6 +41,7 @@ def regenerate(res):
     # the mirror's handlers inherit DigitalRFEventHandler.dispatch: T2 (patterns) + T19 (__init__ / dispatch)
     from props import c15 as _c15
     _c15.regenerate(res)
+    common.regenerate_with(res, "mirrordest2gallina", "MirrorDestGen.v", "T20: DigitalRFMirrorHandler.mirror_to_dest")
 METH = {0: "copy", 1: "move", 2: "link"}
 
 
@@ -1074,6 +1075,97 @@ def consumer_leg(res):
             return
 
 
+def mirrordest_case(pr):
+    """the real mirror_to_dest with every primitive it calls scripted by pr = (dest_dir_exists, makedirs_ok,
+    dest_exists, cmp (None = raises OSError), stage_ok, rename_ok, src_isfile) -> codes of the actions it attempts"""
+    import filecmp
+    import io
+    import sys as _sys
+    import traceback
+    from digital_rf import mirror as M
+    de, mk, ex, cmp, stg, ren, isf = pr
+    src, dest = "/nonexistent-verif/src", "/nonexistent-verif/dest"
+    sp = src + "/ch/2017-07-14T02-00-00/rf@1500000000.000.h5"
+    dp = dest + "/ch/2017-07-14T02-00-00/rf@1500000000.000.h5"
+    ddir, tmp = os.path.dirname(dp), os.path.join(os.path.dirname(dp), "tmp." + os.path.basename(dp))
+    acts = []
+
+    def fail():
+        raise OSError(errno.EIO, "scripted failure")
+
+    def exists(p):
+        if p == ddir:
+            return de
+        if p == dp:
+            return ex
+        acts.append(900)
+        return False
+
+    def makedirs(p, *a, **k):
+        acts.append((11 if mk else 10) if p == ddir else 901)
+        mk or fail()
+
+    def fcmp(a, b, *r, **k):
+        if (a, b) != (sp, dp):
+            acts.append(902)
+        if cmp is None:
+            fail()
+        return cmp
+
+    def stage(a, b):
+        acts.append((21 if stg else 20) if (a, b) == (sp, tmp) else 903)
+        stg or fail()
+
+    def rename(a, b):
+        acts.append((31 if ren else 30) if (a, b) == (tmp, dp) else 904)
+        ren or fail()
+
+    def isfile(p):
+        if p != sp:
+            acts.append(905)
+        return isf
+
+    def rmdir(p):
+        acts.append(5 if p == os.path.dirname(sp) else 906)
+        fail()
+    h = M.DigitalRFMirrorHandler(src, dest, mirror_fun=stage)
+    saved = (os.path.exists, os.makedirs, filecmp.cmp, os.rename, os.path.isfile, os.rmdir, traceback.print_exc, _sys.stdout)
+    os.path.exists, os.makedirs, filecmp.cmp, os.rename, os.path.isfile, os.rmdir = exists, makedirs, fcmp, rename, isfile, rmdir
+    traceback.print_exc = lambda *a, **k: acts.append(4)
+    _sys.stdout = io.StringIO()
+    exc = None
+    try:
+        h.mirror_to_dest(sp)
+    except BaseException as e:  # noqa
+        exc = e
+    finally:
+        os.path.exists, os.makedirs, filecmp.cmp, os.rename, os.path.isfile, os.rmdir, traceback.print_exc, _sys.stdout = saved
+    if exc is not None:
+        acts.append(999)
+    return acts
+
+
+def mirrordest_leg(res):
+    """T20's reading of mirror_to_dest against the method itself: for every outcome of the primitives (192) the real
+    method, with the primitives scripted, attempts exactly the actions the regenerated function lists"""
+    import itertools
+    B = (True, False)
+    prs = list(itertools.product(B, B, B, (None, True, False), B, B, B))
+    cb = lambda b: "true" if b else "false"
+    enc = ("(map (fun a => match a with AMakedirs b => if b then 11 else 10 | AStage b => if b then 21 else 20 | "
+           "APublish b => if b then 31 else 30 | AReport => 4 | ARmdirSrc => 5 end) (gen_mirror_to_dest (mkPr %s %s %s %s %s %s %s)))")
+    exprs = [enc % (cb(de), cb(mk), cb(ex), "None" if c is None else "(Some %s)" % cb(c), cb(stg), cb(ren), cb(isf))
+             for de, mk, ex, c, stg, ren, isf in prs]
+    model = common.run_model_vm("From DRF Require Import Model.MirrorDestBase Gen.MirrorDestGen.", exprs)
+    for pr, m in zip(prs, model):
+        got = mirrordest_case(pr)
+        res.count("mirror_to_dest-with-scripted-primitives")
+        if got != m:
+            res.disagree("regenerated mirror_to_dest (T20) vs the method run with scripted primitives "
+                         "(dest_dir_exists, makedirs_ok, dest_exists, cmp, stage_ok, rename_ok, src_isfile)", list(pr), m, got)
+            return
+
+
 def fault_leg(res):
     """move mode, one publishing rename (tmp.<name> -> <name> under the destination) fails: whatever the mirror does
     about it, an intact copy of every data file exists in the source or under the destination at every moment, and
@@ -1172,6 +1264,7 @@ def _run(res):
     fault_leg(res)
     leftover_leg(res)
     consumer_leg(res)
+    mirrordest_leg(res)
     res.extra["traces_validated_against_impl"] = res.dist.get("fs-operations-traced", 0)
     res.assumptions += [
         "os.rename and os.link are atomic; shutil.copy2 writes the destination name before the content is complete (traced: copyfile is replaced by a two-chunk copy to observe the middle)",
